@@ -1,6 +1,7 @@
 (* C12 — property theorems (statements only; the proofs live in the Acme.C12.Proofs... files). *)
 From Coq Require Import ZArith List Bool.
-From Acme.C12 Require Import Proto NetModel Save Load Proj Domain ProofsSel ProofsRT8 Proofs.
+From Acme.C12 Require Import Proto NetModel Save Load Proj Domain ProofsSel ProofsRT8 Proofs Builder.
+From Acme.C13 Require Import ProofsBuilder.
 Import ListNotations.
 Open Scope Z_scope.
 
@@ -30,3 +31,19 @@ Theorem save_refusal : forall mask w,
                  forallb (present w) (fst (save_outputs mask w)) = true.
 Proof. exact save_refusal_lemma. Qed.
 Print Assumptions save_refusal.
+
+(* The hypothesis `wfb` is reachable: every network produced by the builder of coq/C12/Builder.v (the
+   constructors / mutators the flat generator of the harness calls, each with the checks of the Go
+   mutator; multiplexers not covered; see the header of Builder.v for the usage discipline) is
+   well-formed, hence round-trips whenever its values are inside the ranges of the format.  The
+   harness logs the calls of every flat network it builds, `build` is replayed on them and compared
+   with the network observed through the getters (props/C12/NOTES.md). *)
+Theorem built_wf : forall e ops n, build e ops = Some n -> wfb n = true.
+Proof. exact built_wf_lemma. Qed.
+Print Assumptions built_wf.
+
+Theorem built_load_save : forall now e ops n,
+  build e ops = Some n -> in_domain n = true ->
+  load now (save n) = Ok (canon n) /\ proj (canon n) = proj n.
+Proof. exact built_load_save_lemma. Qed.
+Print Assumptions built_load_save.
